@@ -4,12 +4,13 @@ import re
 
 ID = "C16"
 SUBCMD = "c16"
-IMPORTS = ["Literals", "JsonSpec"]
-HARNESS = "c16_harness"
-COQ_TARGETS = ["JsonSpec.vo", "JsonSpecProofs.vo", "Props/C16.vo"]
-CORRESPONDENCE = ("c16_expected (JsonSpec.spec_parse: the direct specification of the example grammar's concrete syntax "
-                  "and value) = parsley.Evaluate(Sentence(Trim(json.NewParser()))) on value-or-error; second "
-                  "correspondence (oracle): spec_parse = encoding/json (UseNumber) on json_subset")
+IMPORTS = ["Literals", "JsonSpec", "Json"]
+HARNESS = "c16_engine_harness"
+COQ_TARGETS = ["JsonSpec.vo", "JsonSpecProofs.vo", "Json.vo", "JsonProofs.vo", "Props/C16.vo"]
+CORRESPONDENCE = ("c16_model (Json.json_eval: the engine model Top.evaluate on the example grammar as a pexpr term) = "
+                  "parsley.Evaluate(Sentence(Trim(json.NewParser()))) on value-or-error; oracle: JsonSpec.spec_parse (direct "
+                  "specification) = parsley on every input, = encoding/json (UseNumber) on json_subset; the parser built "
+                  "from the same pexpr term = json.NewParser()")
 RULE = ("structured documents (nesting <= 5, empty containers, duplicate and empty keys, unicode, every escape, int64 "
         "edges, decimals with exponents up to the float64 range edge) rendered under five whitespace policies (none, "
         "legal for the grammar's modes, any JSON whitespace anywhere, form feed / other blanks, CRLF); grammar-specific "
@@ -266,7 +267,27 @@ def corruptions(rng, doc, how_many):
     return out
 
 
+def check_grammar_text():
+    """the grammar text in harness/c16.go must be the term Coq prints for (json_rules, json_root) of coq/Json.v"""
+    import subprocess
+    import tempfile
+    root = os.path.dirname(os.path.dirname(os.path.abspath(__file__)))
+    src = open(os.path.join(root, "harness", "c16.go")).read()
+    m = re.search(r"const c16Grammar = `([^`]*)`", src)
+    go_text = " ".join(m.group(1).split()) if m else None
+    with tempfile.TemporaryDirectory() as d:
+        f = os.path.join(d, "c16_grammar.v")
+        open(f, "w").write("From Coq Require Import List NArith.\nFrom Parsley Require Import Grammar Json.\nImport ListNotations.\n"
+                           "Open Scope N_scope.\nSet Printing Width 1000000.\nEval cbv in (json_rules, json_root).\n")
+        out = subprocess.run(["coqc", "-Q", os.path.join(root, "coq"), "Parsley", f], capture_output=True, text=True).stdout
+    m = re.search(r"=\s*(\(.*\))\s*:\s*list pexpr \* pexpr", out, re.S)
+    coq_text = " ".join(m.group(1).split()) if m else None
+    if go_text is None or coq_text is None or go_text != coq_text:
+        raise RuntimeError("harness/c16.go: c16Grammar is not the term of coq/Json.v\n go:  %s\n coq: %s" % (go_text, coq_text))
+
+
 def generate(rng, tier):
+    check_grammar_text()
     quick = tier == "quick"
     out = []
     seen = set()
